@@ -345,7 +345,7 @@ struct StrDriver {
     }
 
     // ---------------------------------------------------------------- creation
-    auto raw(int s) -> void* { return arena_prepare(s, sizeof(S), plan.cfg, static_cast<uint64_t>(ctx.step + 1)); }
+    auto raw(int s) -> void* { return arena_prepare(s, sizeof(S), plan.cfg, static_cast<uint64_t>(ctx.step + 1), alignof(S)); }
 
     void create_default(int s)
     {
@@ -1152,7 +1152,7 @@ struct StrDriver {
             return;
         }
         // quarantined: run on a scratch copy; the outcome must be the reference or the recorded defect model
-        void* mem = arena_prepare(kTemp, sizeof(S), plan.cfg, 777);
+        void* mem = arena_prepare(kTemp, sizeof(S), plan.cfg, 777, alignof(S));
         S* tmp    = nullptr;
         guarded(true, [&] { tmp = new (mem) S(*obj[a]); });
         auto out = guarded(true, [&] { apply_mut(K_REPLACE, var, *tmp, B.sa); });
